@@ -888,8 +888,10 @@ cannot initialise spawn attributes: %s", STRERR);
 	}
 	rc += posix_spawnattr_setpgroup(&sa, 0);
 	rc += posix_spawnattr_setflags(&sa, POSIX_SPAWN_SETPGROUP);
-	if (posix_spawn(&chld, *args, &fa, &sa, deconst(args), env) < 0) {
+	if ((errno = posix_spawn(&chld, *args, &fa, &sa, deconst(args), env))) {
+		/* posix_spawn() hands back the error number */
 		ECHS_ERR_LOG("cannot spawn `%s': %s", *args, STRERR);
+		chld = 0;
 		rc = -1;
 		t->xc = 127;
 	} else {
@@ -1020,9 +1022,10 @@ cannot initialise file actions: %s", STRERR);
 		posix_spawn_file_actions_addclose(&fa, STDOUT_FILENO);
 		posix_spawn_file_actions_addclose(&fa, STDERR_FILENO);
 
-		if (posix_spawn(&chld, mailcmd, &fa, NULL, _mcmd, NULL) < 0) {
+		if ((errno = posix_spawn(&chld, mailcmd, &fa, NULL, _mcmd, NULL))) {
 			ECHS_ERR_LOG("\
 cannot spawn `sendmail': %s", STRERR);
+			chld = 0;
 			rc = -1;
 		}
 
